@@ -276,6 +276,45 @@ pub fn transcript_from_path(fmt: Fmt, input: &[u8], cap: Option<usize>, max_call
     }
 }
 
+/// case indices of the once-per-shard components (a replay with `--only <index>` runs just them)
+pub const SPECIAL_TINY_FILES: u64 = 4_000_000_000;
+pub const SPECIAL_BLANK_PREFIX: u64 = 4_000_000_100;
+
+/// every file of 0..=2 bytes over a structural alphabet through the file-based constructors (a reader
+/// that looks at the file before it reads it must cope with the smallest files)
+pub fn tiny_files_from_path(ctx: &Ctx, rep: &mut Report, fmt: Fmt) {
+    let alpha: &[u8] = if fmt == Fmt::Fasta { b"\n\r>A " } else { b"\n\r@+A" };
+    let mut files: Vec<Vec<u8>> = vec![vec![]];
+    for a in alpha {
+        files.push(vec![*a]);
+        for b in alpha {
+            files.push(vec![*a, *b]);
+        }
+    }
+    for f in files {
+        for cap in [None, Some(3usize)] {
+            rep.evaluations += 1;
+            rep.count("tiny_files_read_from_path");
+            let mut j = ctx.replay_json(SPECIAL_TINY_FILES);
+            j["file"] = json!(show(&f));
+            j["from_path_capacity"] = json!(cap);
+            match transcript_from_path(fmt, &f, cap, 6) {
+                Err(m) => rep.violation(&format!("{}-from-path-tiny-file", fmt.name()), m, j),
+                Ok(obs) => {
+                    let rc = Rc::new(f.clone());
+                    let res = match fmt {
+                        Fmt::Fasta => check_fasta_transcript(&ref_fasta(&f), &obs, false, false),
+                        Fmt::Fastq => check_fastq_transcript(&rc, &obs, false, false).map(|_| ()),
+                    };
+                    if let Err((sig, what)) = res {
+                        rep.violation(&format!("{}-from-path-{}", fmt.name(), sig), what, j);
+                    }
+                }
+            }
+        }
+    }
+}
+
 // ---------------------------------------------------------------------------
 // C01
 
@@ -402,7 +441,49 @@ fn c01_one(ctx: &Ctx, idx: u64, rep: &mut Report, input: Rc<Vec<u8>>, cfg: &Conf
     }
 }
 
+/// leading blank lines by the hundred thousand and by the million ("leading blank lines are skipped")
+fn long_blank_prefix(ctx: &Ctx, rep: &mut Report, which: u64) {
+    let n = [70_000usize, (1 << 20) + 1, (1 << 21) + 3][(which % 3) as usize];
+    let crlf = (which / 3) % 2 == 1;
+    let mut b = Vec::with_capacity(2 * n + 64);
+    for _ in 0..n {
+        if crlf {
+            b.push(b'\r');
+        }
+        b.push(b'\n');
+    }
+    b.extend_from_slice(format!(">r{}_0 d\nACGT\nAC\n>r{}_1\nTTT\n", ctx.shard, ctx.shard).as_bytes());
+    let input = Rc::new(b);
+    let r = ref_fasta(&input);
+    let cfg = Config {
+        cap: if which % 2 == 0 { 65_536 } else { 4096 },
+        policy: PolSpec::Std,
+        chunking: if which % 4 < 2 { Chunking::Whole } else { Chunking::Fixed(100_000) },
+        interrupts: Interrupts::None,
+    };
+    rep.evaluations += 1;
+    rep.count("inputs_with_70000_to_2_million_leading_blank_lines");
+    let t = transcript(Fmt::Fasta, &input, &cfg, Via::Next, 6, false);
+    let mut j = ctx.replay_json(SPECIAL_BLANK_PREFIX + which);
+    j["input"] = json!(format!("{} blank lines ({}) followed by two records", n, if crlf { "CRLF" } else { "LF" }));
+    j["config"] = json!(cfg.describe());
+    if let Some(c) = &t.caught {
+        caught_violation(rep, c, "FASTA reading", j);
+    } else if let Err((sig, what)) = check_fasta_transcript(&r, &t.obs, false, true) {
+        rep.violation(&format!("fasta-{}", sig), what, j);
+    }
+}
+
 pub fn c01(ctx: &Ctx, rep: &mut Report) {
+    if !ctx.miri && ctx.only.map_or(ctx.shard == 0, |o| o == SPECIAL_TINY_FILES) {
+        tiny_files_from_path(ctx, rep, Fmt::Fasta);
+    }
+    if !ctx.miri && ctx.only.map_or(true, |o| o >= SPECIAL_BLANK_PREFIX) {
+        long_blank_prefix(ctx, rep, ctx.only.map_or(ctx.shard, |o| o - SPECIAL_BLANK_PREFIX));
+    }
+    if ctx.only.map_or(false, |o| o >= SPECIAL_TINY_FILES) {
+        return;
+    }
     let l = exh_len(ctx, 7, 9);
     let total = gen::small_count(l);
     let exh = exh_cases_for_shard(total, ctx.shard, ctx.nshards);
@@ -715,6 +796,12 @@ fn c02_one(ctx: &Ctx, idx: u64, rep: &mut Report, input: Rc<Vec<u8>>, cfg: &Conf
 }
 
 pub fn c02(ctx: &Ctx, rep: &mut Report) {
+    if !ctx.miri && ctx.only.map_or(ctx.shard == 0, |o| o == SPECIAL_TINY_FILES) {
+        tiny_files_from_path(ctx, rep, Fmt::Fastq);
+    }
+    if ctx.only.map_or(false, |o| o >= SPECIAL_TINY_FILES) {
+        return;
+    }
     let l = exh_len(ctx, 7, 9);
     let total = gen::small_count(l);
     let exh = exh_cases_for_shard(total, ctx.shard, ctx.nshards);
